@@ -290,6 +290,11 @@ func c10Specs() []built {
 			{Op: "AllowStyles", Names: []string{"color"}, Handler: "is-red", Scope: "global"},
 			{Op: "AllowStyles", Names: []string{"color"}, Enum: []string{"blue"}, Scope: "on", On: []string{"p"}},
 			{Op: "AllowStyles", Names: []string{"color"}, Re: `^(green)$`, Scope: "on", On: []string{"p"}},
+		}},
+		// enum entries and property names spelled with upper-case letters by the caller
+		spec.Spec{Name: "c10-enum-mixed-case", Base: "new", Calls: []C{els("p", "span"), {Op: "AllowElementsMatching", Re: reMy},
+			{Op: "AllowStyles", Names: []string{"Color", "FONT-family"}, Enum: []string{"Red", "GREEN", "Arial"}, Scope: "global"},
+			{Op: "AllowStyles", Names: []string{"WIDTH"}, Enum: []string{"1PX"}, Scope: "on", On: []string{"P"}},
 		}})
 	return buildAll(out)
 }
